@@ -7,7 +7,7 @@ from ..sched import replay_case, run_case
 from ..spaces import all_res, shard_iter
 
 ID = "C04"
-BUDGET = {"quick": 100, "thorough": 900}
+BUDGET = {"quick": 240, "thorough": 900}
 MONITORS = [mon_c04]
 
 
